@@ -523,6 +523,9 @@ func (g *c13Gen) dur() *c13Val {
 		d = time.Duration(g.r.Intn(100000)) * time.Millisecond
 	case 4:
 		d = -time.Duration(g.r.Intn(100000)) * time.Second
+	case 5:
+		// below a millisecond: the text carries the micro sign ("250µs"), which writers of ASCII-only documents escape
+		d = time.Duration(g.r.Intn(1000000))
 	default:
 		d = time.Duration(int64(g.r.U64()))
 	}
@@ -738,7 +741,7 @@ func (rd *c13Render) node(t *c13Ty, v *c13Val) *c13Doc {
 		if rd.format == "toml" {
 			return &c13Doc{kind: "t", s: v.s}
 		}
-		return &c13Doc{kind: "s", s: v.s}
+		return &c13Doc{kind: "s", s: v.s, tm: true}
 	case "ip":
 		return &c13Doc{kind: "s", s: v.s}
 	case "slice":
